@@ -486,3 +486,26 @@ Proof.
   apply (wrap_all_transparent ind align width (real_req T sr) T Hi Hn Hw); try assumption.
   intros rp u x. apply real_req_nofit0.
 Qed.
+
+(* ---- indentation strings that contain a newline (finding C03-newline-in-indentation, open) -------------------
+   The guard `no_lf ind` above cannot be dropped.  _LengthTrackingWriter.offset counts the characters since the last
+   newline written; TextWrappingSerializer._line_offset subtracts level * len(indentation) from it, which is the width
+   of the indentation on the current line only if the indentation contains no newline.  Otherwise just the part of
+   level * indentation behind its last newline is on the line: _line_offset is too small (0 or negative), the
+   serializer takes a partly filled line for an empty one (indentation "\n": offset 1 - 1 * 1 = 0) or
+   _available_space for positive when the line is full (" \n", "\n "), and after a line break has consumed the
+   trailing space of a text the following node is glued to the text.  The model reproduces the real output. *)
+Definition c03_lf_witness : node := Tag [] [114%N] [] [Text [97; 32; 98; 32]%N; Tag [] [105%N] [] []].
+
+Lemma c03_lf_indentation_refuted :
+  reduce_model c03_lf_witness = c03_lf_witness /\ is_text c03_lf_witness = false /\
+  ws_indent [LF] = true /\ no_lf [LF] = false /\
+  (* <r>(LF)a(LF)b<i/>(LF)</r> *)
+  wrap_str [LF] false 1%Z c03_lf_witness [] = [60; 114; 62; 10; 97; 10; 98; 60; 105; 47; 62; 10; 60; 47; 114; 62]%N /\
+  reduce_model (wrap_seen [LF] false 1%Z c03_lf_witness []) <> c03_lf_witness /\
+  reduce_model (wrap_seen [SP; LF] false 1%Z c03_lf_witness []) <> c03_lf_witness /\
+  reduce_model (wrap_seen [LF; SP] false 1%Z c03_lf_witness []) <> c03_lf_witness /\
+  (* without the newline in the indentation: *)
+  reduce_model (wrap_seen [] false 1%Z c03_lf_witness []) = c03_lf_witness /\
+  reduce_model (wrap_seen [SP] false 1%Z c03_lf_witness []) = c03_lf_witness.
+Proof. vm_compute. repeat split; try reflexivity; discriminate. Qed.
